@@ -125,6 +125,16 @@ def proto_instances(tier):
     return out
 
 
+def multi_instances(tier):
+    out = []
+    for m in ([2, 6] if tier == "quick" else [0, 2, 5, 6, 7]):
+        i = Inst("multi_compose_m%d" % m, 8, None, ["C15"], {"columns": 3, "non_empty_column_patterns(bitmask)": m, "per-(pattern,column) outcomes and scores": "symbolic (stub table)"}, None)
+        i.small = True
+        i.cbmc_extra = PROTO_CBMC
+        out.append(i)
+    return out
+
+
 # loops that really iterate more than the global bound (resolved per binary with cbmc --show-loops)
 # CBMC loses the concrete (zero / one) length of the pattern's atom vector once the Worker has been
 # moved behind Arc<Mutex<..>>, and would unroll every clone / drop loop over atoms to the global
@@ -139,7 +149,7 @@ PROTO_RULES = [(r"array.*map|drain_array_with|try_from_fn|from_fn", 33), (r"boxc
 # takes seconds. Soundness is not affected (it only changes how symex represents arrays).
 PROTO_CBMC = ["--max-field-sensitivity-array-size", "512"]
 
-FAMILIES = {"nucleo_sort": sort_instances, "nucleo_boxcar": boxcar_instances, "nucleo_proto": proto_instances}
+FAMILIES = {"nucleo_sort": sort_instances, "nucleo_boxcar": boxcar_instances, "nucleo_proto": proto_instances, "nucleo_multi": multi_instances}
 
 
 def all_instances(tier):
@@ -160,6 +170,8 @@ def write_gen(sc, tier, extra=(), small=None):
             if not any(j.name == i.name for j in fams[i.family]):
                 fams[i.family].append(i)
     for fam in FAMILIES:
+        if fam == "nucleo_multi":
+            continue  # static harness list
         # the protocol family runs the real worker, whose vectors legitimately grow: no Vec::push stub
         sc.write_gen(fam + ".rs", gen_text(fams.get(fam, []), "harnesses_nostub" if fam == "nucleo_proto" else "harnesses"))
     return None
